@@ -5,6 +5,7 @@ with ite (IteDomain) and left to the SMT core (DESIGN.md C13).  Models are ratio
 replayed *exactly* (fractions through the instruction list), because violations may live on thin
 sets such as C1 == 0 and C2 == 0."""
 from __future__ import annotations
+from ..harness import StructureChanged
 import time
 import random
 from fractions import Fraction
@@ -32,9 +33,9 @@ def get_f():
     import cyecca.models.rdd2 as rdd2
     f = rdd2.derive_control_allocation()["f_alloc"]
     if [f.name_in(i) for i in range(f.n_in())] != ["F_max", "l", "Cm", "Ct", "T", "M"]:
-        raise HarnessError("control_allocation has an unexpected input signature")
+        raise StructureChanged("control_allocation has an unexpected input signature")
     if [f.name_out(i) for i in range(f.n_out())] != ["omega", "Fp_sum", "F_moment", "F_thrust", "M_sat"]:
-        raise HarnessError("control_allocation has an unexpected output signature")
+        raise StructureChanged("control_allocation has an unexpected output signature")
     return f
 
 
@@ -136,7 +137,7 @@ def job(seed, tier, shard=(0, 1)):
             for r in range(len(M_)):
                 for c in range(len(M_[0])):
                     if not _same(M_[r][c], theirs[i][r][c]):
-                        raise HarnessError(f"translator validation failed: output {i}[{r},{c}] {M_[r][c]} vs {theirs[i][r][c]}")
+                        raise StructureChanged(f"translator validation failed: output {i}[{r},{c}] {M_[r][c]} vs {theirs[i][r][c]}")
     stats["validated_points"] = 12
     v, inp, pre = _inputs_z3()
     D = IteDomain()
@@ -160,7 +161,7 @@ def job(seed, tier, shard=(0, 1)):
     s.set("timeout", 20000)
     s.add(*pre, z3.Not(out["Fp_sum"][0] == out["F_moment"][0] + out["F_thrust"][0]))
     if s.check() != z3.sat:
-        raise HarnessError("seeded mutant obligation (Fp = F_sum for all inputs) was not refuted: encoding is vacuous")
+        raise StructureChanged("seeded mutant obligation (Fp = F_sum for all inputs) was not refuted: encoding is vacuous")
     tmo = 60000 if tier == "quick" else 300000
     for idx, (label, fml) in enumerate(cl):
         if idx % shard[1] != shard[0]:
